@@ -26,6 +26,7 @@ def strip_s0(b):
 
 class C13(Engine):
     prop = "C13"
+    digest_may_vary = True      # see framework.gate_and_minimise
     title = "assembly is a deterministic function of the source alone"
     quick_budget = 90
     quick_runs = 13000
